@@ -9,18 +9,132 @@ TRUST = ("rustc nightly's MIR construction/type check for the host target, dev p
          "iced-x86 1.21.0 static tables (the version /repo decodes with); the std summaries listed in DESIGN.md "
          "appendix A; wasm32-only items are not analysed (listed in coverage.unanalysed_cfg_items)")
 
+AI = "path-partitioned abstract interpretation of borrowck-phase MIR (symbolic terms, per-class constant propagation, bit provenance)"
+
 CHECKS = {
-    "C03": dict(
-        category="other",
-        text=("Static decision of the control-transfer clauses: every implemented, decoder-producible Jcc handler is "
-              "abstractly interpreted under all 64 CF/PF/AF/ZF/SF/OF classes and must store RIP exactly under the "
-              "architectural condition (iced condition_code + SDM truth table); JRCXZ/JECXZ guards, the provenance of the "
-              "value stored to RIP (near_branch64 / operand register / memory slot), emptiness of the not-taken path, "
-              "`RIP := next_ip` dominating dispatch in step, and the frozen set of branch forms. Exhaustive over the finite "
-              "flag domain; guest values stay symbolic, so the verdict holds for all displacements/targets."),
-        design_ref="§5 C03",
-        technique="abstract interpretation of MIR per flag class (64 classes x handler) + dominator check on step; oracle: iced-x86 tables",
-    ),
+    "C01": dict(category="other", design_ref="§5 C01",
+        text=("Structural necessary conditions of correct results, decided for every implemented, decoder-producible form x operand "
+              "shape: the frozen form set and the three sibling mnemonic tables; a success path for every shape the decoder can produce; "
+              "operand/implicit-register write sets, accessor widths and fixed registers against iced-x86's tables; CMOVcc/SETcc under all "
+              "64 flag classes; immediate table of the operand builder; shifted amount for all 256 counts; zero/sign extension by bit "
+              "provenance. Not decided: the arithmetic inside the result closures."),
+        technique=AI + "; oracle: iced-x86 static tables; exhaustive finite classes (64 flag classes, 256 shift counts)"),
+    "C02": dict(category="other", design_ref="§5 C02",
+        text=("Per implemented form and flag: definitely written / constant / untouched exactly as iced-x86's rflags tables say, joined "
+              "over all success paths; the flag setters' transfer functions are derived from their own MIR for every mask pair in use; "
+              "rflags bits a handler depends on are within rflags_read; all 256 shift counts are evaluated for flag neutrality of a "
+              "masked-zero count. Not decided: the values of CF/OF computed in closures."),
+        technique=AI + " composed with flag-setter summaries; oracle: iced-x86 rflags tables"),
+    "C03": dict(category="other", design_ref="§5 C03",
+        text=("Every implemented, decoder-producible Jcc handler is interpreted under all 64 CF/PF/AF/ZF/SF/OF classes and must store "
+              "RIP exactly under the architectural condition; JRCXZ/JECXZ guards; provenance of the value stored to RIP; emptiness of "
+              "the not-taken path; `RIP := next_ip` dominating dispatch in step; the frozen set of branch forms. Exhaustive over the "
+              "finite flag domain; guest values stay symbolic."),
+        technique="abstract interpretation of MIR per flag class (64 x handler) + dominators on the step coroutine; oracle: iced-x86 condition codes"),
+    "C04": dict(category="other", design_ref="§5 C04",
+        text=("For every PUSH/POP/CALL/RET form and shape: each stack access is at the architectural offset from the entry RSP and of "
+              "the architectural size (iced used_memory), RSP moves by stack_pointer_increment, CALL stores the return address, no other "
+              "store happens, RET's sentinel compares the slot it reads. Offsets are decided symbolically in an affine normal form, so "
+              "the verdict holds for all RSP values. The pinned one-slot shift is reported as 13 known findings."),
+        technique=AI + " + affine normal form of addresses; oracle: iced-x86 stack tables"),
+    "C05": dict(category="other", design_ref="§5 C05",
+        text=("mem_addr's result term equals base + index*scale + displacement (+fs|gs) for 78 (address-size class, presence, segment) "
+              "classes, wrapping at 2^64 / 2^32; every 64-bit and 32-bit GPR in base and index position yields an address; the operand "
+              "builder copies iced's fields one for one (incl. RIP/EIP -> no base); LEA writes the truncated address and ignores segment bases."),
+        technique=AI + " with term normalisation of wrapping sums; per-register-class enumeration"),
+    "C06": dict(category="other", design_ref="§5 C06",
+        text=("Guard structure of each fault class: zero-divisor test before every Div/Rem; a quotient range test that can fail before "
+              "narrowing; every failing guest memory access makes the handler return that error (all handlers x shapes); alignment test "
+              "for alignment-checking 16-byte operands; no abort for any decoder-producible shape, any value-dependent assertion in a "
+              "result closure, or any of the 256 shift counts. Not decided: whether a given dividend/address faults."),
+        technique=AI + " with fault-forking accessor summaries; exhaustive shift-count sweep"),
+    "C07": dict(category="proof", design_ref="§5 C07",
+        text=("For each of the 8 GPR accessors and each of the 68 register views (+RIP) the stored / returned word is computed as a bit "
+              "provenance vector over (old parent value, argument) and must equal the architectural vector; the range guard precedes the "
+              "single insert; out-of-range values and wrong-width registers (all 86 variants x 8 accessors) end in a by-design rejection "
+              "without any store; the lazy_static register tables and both From impls are evaluated from MIR and compared with iced's "
+              "register table. Every obligation is discharged by exhaustive enumeration of a finite domain; HashMap semantics are trusted."),
+        technique="bit-provenance abstract interpretation (A6) of the accessors' MIR over all registers; table evaluation of lazy_static initialisers"),
+    "C08": dict(category="other", design_ref="§5 C08",
+        text=("Order-type enumeration (all weak orderings of address, address+len, area.start, area.end) shows the raw accessors touch "
+              "area bytes only inside the area and serve every in-range request; no error exit after the first store; typed accessors "
+              "agree on byte count, little-endian conversion and address; no unguarded overflow-checked arithmetic on API parameters or "
+              "area fields (with the area-end invariant proven at both lifecycle functions); length == data.len() at every construction."),
+        technique="order-type enumeration (A7) + abstract interpretation of MIR + overflow-site triage (A9)"),
+    "C09": dict(category="proof", design_ref="§5 C09",
+        text=("3 raw accessors x 8 permission masks: area bytes are touched iff the mask has READ/WRITE/EXEC (exhaustive); a denied "
+              "access returns Err and touches nothing; only the gated accessors, lifecycle functions, mem_prot and the renderer project "
+              "MemoryArea.data/.access (who-may-touch over all MIR bodies, field privacy); constructor and ELF loader apply R|X / "
+              "elf_flags_to_prot(p_flags) on every path; elf_flags_to_prot is the R/W/X permutation for all 8 inputs; mem_prot stores "
+              "only the matching area's mask after the <=7 guard."),
+        technique="abstract interpretation per permission mask (A4) + who-may-touch over resolved MIR places (A1) + must-pass-through on the loader CFG"),
+    "C10": dict(category="other", design_ref="§5 C10",
+        text=("Order-type enumeration over (new.start, new.end, old.start, old.end): creation passes only disjoint requests, resize "
+              "passes exactly the disjoint ones and never rejects the area itself; only lifecycle functions mutate the area list; the "
+              "retry loops have a strictly progressing variant; resize keeps the common prefix in a zero vector; 'anywhere' allocators "
+              "return the start they created."),
+        technique="order-type enumeration (A7) over MIR interpretation; loop-variant recognition (A12); who-may-write (A1)"),
+    "C11": dict(category="other", design_ref="§5 C11",
+        text=("The step coroutine is interpreted with decode/dispatch/hooks as primitives (all paths): finished/limit guards precede any "
+              "effect, proceed <=> count < limit (3 orderings), exactly one count increment after dispatch on continuing paths, "
+              "RIP := next_ip once before hooks and dispatch, finished set exactly under RIP == code_end_addr (post-instruction) or the "
+              "normal-finish signal, Ok(!finished) returned; writers of `finished` and of the finish signal are confined; execute is "
+              "`while step().await? {}`. Not decided: equality of whole runs."),
+        technique="abstract interpretation of the borrowck-phase coroutine MIR of step/execute; who-may-write over all bodies"),
+    "C12": dict(category="other", design_ref="§5 C12",
+        text=("On every path of step with hooks: before-runner completes before dispatch, after-runner after it, each started once, "
+              "looked up with the decoded mnemonic; hook errors fail the step; the registration API's vector is the one the runner "
+              "iterates for that phase; the runner leaves hooks.running false on every exit; registration is refused while running. "
+              "wasm32-only JS hooks are not analysed."),
+        technique="abstract interpretation of the step and hook-runner coroutine MIR; typestate on hooks.running"),
+    "C13": dict(category="other", design_ref="§5 C13",
+        text=("The brk hook closure is interpreted: acts only for RAX == 12; brk(0) returns base+length; brk(p) resizes (base, p-base), "
+              "returns p (affine equality), updates the length only after a successful resize; p below the base changes nothing; first "
+              "use allocates through the non-overlapping allocator; the resize primitive accepts growth of the heap area (A7). "
+              "Not decided: heap contents over histories."),
+        technique=AI + " of the hook closure + affine normal form; shares C10's order enumeration"),
+    "C14": dict(category="other", design_ref="§5 C14",
+        text=("Three necessary conditions of FIFO conservation, decided on the three pipe closures: key agreement between pipe(), "
+              "read and write; read delivers buf[..m] and keeps buf[m..] for the same m = min(count, len) and returns m, write appends "
+              "exactly the bytes read and returns count; other syscalls / unknown descriptors are left Unhandled with nothing touched. "
+              "FIFO order over arbitrary interleavings as such is declined."),
+        technique=AI + " of the hook closures with term identity of keys and split points"),
+    "C15": dict(category="other", design_ref="§5 C15",
+        text=("from_binary is interpreted with the elf crate and the memory API as primitives: RIP := e_entry; PT_LOAD areas at p_vaddr "
+              "hold segment_data(segment) (zero area of rounded p_memsz + [..p_filesz] copy otherwise); mem_prot(p_vaddr, permutation of "
+              "p_flags) per flag class; symbols keyed by st_value, named by strtab.get(st_name), undefined skipped. "
+              "Byte equality of the image for all files is declined."),
+        technique=AI + " of the loader with header fields as symbolic leaves"),
+    "C16": dict(category="other", design_ref="§5 C16",
+        text=("Crash/allocation surface of the loader over all its paths: no class-X abort; no unguarded overflow-checked arithmetic on "
+              "a header field; every header-derived allocation size is dominated by a bounding comparison; only iterator loops. "
+              "Assumes the elf crate's parsers return errors rather than panic."),
+        technique=AI + " with header-field taint + overflow-site triage (A9) + loop classification (A12)"),
+    "C17": dict(category="other", design_ref="§5 C17",
+        text=("Layout order argc, argv*, 0, envp*, 0; NUL-terminated copies through the allocator; alignment test before the RSP "
+              "store; slot convention and space below RSP by affine comparison (two known findings inherited from C04). "
+              "Success for every list length is declined."),
+        technique=AI + " with precise loop unrolling before widening + affine normal form"),
+    "C18": dict(category="other", design_ref="§5 C18",
+        text=("Every control-flow handler records exactly one trace entry of the matching variant with the value it stores to RIP "
+              "(CALL pushes, RET pops the call stack; untaken paths record nothing); add_trace's level/run-length bookkeeping for all 12 "
+              "(new, last) variant classes; renderers contain no signed->usize cast feeding an allocation without a guard and no "
+              "unguarded overflow check on the nesting level. Text equality with a golden rendering is declined."),
+        technique=AI + " per variant class; MIR dataflow for signed-cast allocation sinks over the renderer cone"),
+    "C19": dict(category="other", design_ref="§5 C19",
+        text=("Inventory form: all diverging sites in the cone of step (769 bodies) are classified by macro back-trace (by-design "
+              "rejection / debug assertion / overflow check / crash); path analyses of every handler x shape, the 256 shift counts, "
+              "the address computation for every base/index register, the memory accessors, the decoder front end, the trace "
+              "recorder, the renderers and the built-in syscall hooks must report no evidently failing site outside the known "
+              "findings; debug assertions agree with dispatch; no free loop without a variant. Host stack/allocation failure is declined."),
+        technique="panic-site inventory over the call-graph cone (A1/A9) + the path analyses of C01/C05/C06/C08/C18 re-run for crashes"),
+    "C20": dict(category="other", design_ref="§5 C20",
+        text=("No nondeterminism source other than the documented ones can reach state, traces or error texts: callers of rand are "
+              "exactly the two seeding functions (feeding only registers/xmm_registers, called only by the constructor) and the pipe() "
+              "hook; RandomState map iteration only in the debug renderers, outside the observable cone; no time/env/pid/address source; "
+              "every handler reads only its operands and architecturally implicit registers, step reads only RIP. "
+              "Equality of two whole runs is declined."),
+        technique="nondeterminism-source taint over the resolved call graph (A11) + register-read sets from abstract interpretation vs iced-x86 implicit registers"),
 }
 
 NOT_YET = "rules for this property are designed (DESIGN.md §5) but not implemented yet in this round"
